@@ -15,7 +15,7 @@ from phyclone.utils.dev import clear_proposal_dist_caches
 
 ID = "C01"
 LEVEL = "proof"
-THEOREMS = ["csmc_invariant", "aux_mixture_invariant"]
+THEOREMS = ["csmc_invariant", "csmc_invariant_final_resample", "aux_mixture_invariant", "pg_spec_valid", "pg_csmc_invariant", "pg_incr_eq_incrWeight", "reachable_iff_order", "pg_invariant_abstract", "pg_csmc_exec", "pg_step_exec", "pg_invariant"]
 BUDGET = {"quick": 150, "thorough": 1200}
 RULE = ("configurations = (data set of 1..3 data points with dyadic likelihoods, alpha in {3/10,1,7/2}, proposal in "
         "{bootstrap, semi-adapted, fully-adapted}, outlier modelling off/on, particles N in {2,3}, resampling threshold in "
